@@ -8,6 +8,7 @@ import (
 	"os"
 	"path/filepath"
 	"runtime"
+	"runtime/debug"
 	"sort"
 	"strings"
 	"sync"
@@ -121,7 +122,12 @@ func c20Op(kind string, seed uint64) string {
 			if ind := r.Intn(4); kind == "write-ttml" && ind > 0 {
 				// the writer's option: it concerns this call only
 				var b bytes.Buffer
-				err := s.WriteToTTML(&b, astisub.WriteToTTMLWithIndentOption([]string{"", "\t", "  "}[ind-1]))
+				var err error
+				if ind == 3 {
+					err = s.WriteToTTML(&b, c20SharedOptions...) // (option values are not documents: handing the same ones to every call is fair)
+				} else {
+					err = s.WriteToTTML(&b, astisub.WriteToTTMLWithIndentOption([]string{"", "\t"}[ind-1]))
+				}
 				out = fmt.Sprintf("%s/%v/", sha(b.Bytes()), err != nil)
 				return
 			}
@@ -187,6 +193,18 @@ var c20Digest string
 var c20Goroutines int
 var c20LogPrefix string
 var c20LogFlags int
+var c20Process string
+
+// c20ProcessState: settings of the whole process that a library call has no business changing
+func c20ProcessState() string {
+	gc := debug.SetGCPercent(100)
+	debug.SetGCPercent(gc)
+	wd, _ := os.Getwd()
+	return fmt.Sprintf("GC percent %d, working directory %s, %d environment variables", gc, wd, len(os.Environ()))
+}
+
+// c20SharedOptions: one slice of writer options (with room to spare) that every goroutine passes as it is
+var c20SharedOptions = append(make([]astisub.WriteToTTMLOption, 0, 4), astisub.WriteToTTMLWithIndentOption("  "))
 
 func c20Run(c *fw.Ctx) fw.Outcome {
 	r := c.R
@@ -249,6 +267,10 @@ func c20Run(c *fw.Ctx) fw.Outcome {
 	if p, f := log.Prefix(), log.Flags(); p != c20LogPrefix || f != c20LogFlags {
 		return fw.Bad(key, nil, "the process-wide logger is left changed by the concurrent calls: prefix %q flags %d, it was prefix %q flags %d before the rounds", p, f, c20LogPrefix, c20LogFlags)
 	}
+	// ... the garbage collector's setting, the working directory, the environment
+	if st := c20ProcessState(); st != c20Process {
+		return fw.Bad(key, nil, "process-wide state is left changed by the concurrent calls: %s, it was %s before the rounds", st, c20Process)
+	}
 	if n := atomic.LoadInt64(&c20LateReads); n > 0 {
 		return fw.Bad(key, nil, "%d reads were issued on a reader after the call it had been given to had returned: the call left something running that still uses its input", n)
 	}
@@ -298,6 +320,7 @@ func init() {
 			datasegMark()
 			c20Goroutines = runtime.NumGoroutine()
 			c20LogPrefix, c20LogFlags = log.Prefix(), log.Flags()
+			c20Process = c20ProcessState()
 			return nil
 		},
 		Final: func(c *fw.Ctx) []fw.Outcome {
